@@ -103,7 +103,10 @@ fn check_choice(ts: &[T; 5], choice: &Choice) {
 
 fn fake_config() -> &'static crate::Config {
     // `choose` implementations take the config but the strategies checked here never read it
-    unsafe { &*std::ptr::NonNull::<crate::Config>::dangling().as_ptr() }
+    // a real (leaked, never initialised, never read) allocation of the right size: the strategies
+    // checked here ignore their `&Config` argument
+    let b: Box<std::mem::MaybeUninit<crate::Config>> = Box::new(std::mem::MaybeUninit::uninit());
+    unsafe { &*(Box::leak(b).as_ptr()) }
 }
 
 fn o7_1<const MASK: u8>() {
